@@ -84,6 +84,9 @@ def gen_features(rng, n, nu, m, metric=None, lattice=False, tie_free=False):
             X = [[float(rng.randint(0 if pos else -2, 4)) for _ in range(dim)] for _ in range(N)]
         else:
             X = [[(rng.random() * 9 + 0.5) if pos else (rng.random() * 20 - 10) for _ in range(dim)] for _ in range(N)]
+            if pos and dim >= 2 and rng.random() < 0.5:
+                # sparse non-negative rows (histograms, counts): exact zeros are in the domain of the decorated metrics
+                X = [[0.0 if rng.random() < 0.3 else v for v in r] for r in X]
         if m and not lattice:
             # some queries are copies of training rows, midpoints, or far away
             for i in range(n + nu, N):
@@ -125,8 +128,27 @@ def gen_matrix(rng, N, alphabet=None, symmetric=True, tie_free=False):
     return D
 
 
-def gen_instance(rng, nmax=10, nu=0, m=0, tie_free=False, kinds=("feat", "mat", "lattice", "feat", "mat", "lattice", "tiny")):
+def gen_instance(rng, nmax=10, nu=0, m=0, tie_free=False, kinds=("feat", "mat", "lattice", "feat", "mat", "lattice", "tiny", "sparse")):
     kind = rng.choice(kinds)
+    if kind == "sparse":
+        # histogram-like rows: 5-8 non-negative bins, many of them exactly 0, under the decorated ratio metrics; somewhat
+        # larger sets, since shared empty bins are what makes such data special
+        n = rng.randint(max(2, min(8, nmax)), nmax + 8)
+        labels = gen_labels(rng, n)
+        metric = rng.choice(["canberra", "chi_squared", "soergel", "bray_curtis", "clark", "squared"])
+        dim = rng.randint(5, 8)
+        for _ in range(20):
+            X = [[0.0 if rng.random() < 0.45 else float(rng.randint(1, 9)) + (0.0 if rng.random() < 0.5 else rng.random()) for _ in range(dim)]
+                 for _ in range(n + nu + m)]
+            D = metric_matrix(metric, X)
+            if any(v != v for r in D for v in r):
+                continue
+            if tie_free:
+                offd = [D[a][b] for a in range(n + nu) for b in range(a + 1, n + nu)]
+                if len(set(offd)) != len(offd) or min(offd, default=1) <= 0 or any(D[a][b] != D[b][a] for a in range(n + nu + m) for b in range(n + nu + m)):
+                    continue
+            return Instance("sparse", X, labels, D, nu, m, metric)
+        kind = "feat"
     if kind == "tiny":
         # features of very small magnitude: costs of order 1e-22 under squared metrics (the algorithms are order-only,
         # so the scale must not matter)
@@ -161,7 +183,7 @@ def gen_instance(rng, nmax=10, nu=0, m=0, tie_free=False, kinds=("feat", "mat", 
                 alphabet.append(0.0)   # zero distances between distinct samples
         D = gen_matrix(rng, n + nu + m, alphabet)
         return Instance("mat", None, labels, D, nu, m, None)
-    metric = rng.choice(PLAIN_METRICS + POS_METRICS) if kind == "feat" else rng.choice(PLAIN_METRICS)
+    metric = rng.choice(PLAIN_METRICS + POS_METRICS) if (kind == "feat" or rng.random() < 0.4) else rng.choice(PLAIN_METRICS)
     X, D = gen_features(rng, n, nu, m, metric, lattice=(kind == "lattice") and not tie_free, tie_free=tie_free)
     if X is None:
         return gen_instance(rng, nmax, nu, m, tie_free, kinds=("mat",))
